@@ -758,14 +758,37 @@ def decode_table(pkg, part):
             "dxf_ids": _collect_dxf_ids(root)}
 
 
+# the default indexed colour palette, ECMA-376 Part 1, 18.8.27 indexedColors (64 and 65 are system colours)
+INDEXED_PALETTE = (
+    "000000 FFFFFF FF0000 00FF00 0000FF FFFF00 FF00FF 00FFFF 000000 FFFFFF FF0000 00FF00 0000FF FFFF00 FF00FF 00FFFF "
+    "800000 008000 000080 808000 800080 008080 C0C0C0 808080 9999FF 993366 FFFFCC CCFFFF 660066 FF8080 0066CC CCCCFF "
+    "000080 FF00FF FFFF00 00FFFF 800080 800000 008080 0000FF 00CCFF CCFFFF CCFFCC FFFF99 99CCFF FF99CC CC99FF FFCC99 "
+    "3366FF 33CCCC 99CC00 FFCC00 FF9900 FF6600 666699 969696 003366 339966 003300 333300 993300 993366 333399 333333").split()
+
+
+def color_argb(el, palette=None):
+    """CT_Color -> "AARRGGBB": @rgb, or @indexed through the palette (the workbook's <indexedColors> if it has one,
+    else the default); "" for absent, theme, auto and system colours"""
+    if el is None:
+        return ""
+    if el.get("rgb") is not None:
+        return el.get("rgb").upper()
+    idx = _int(el.get("indexed"), -1) if el.get("indexed") is not None else -1
+    pal = palette or INDEXED_PALETTE
+    if 0 <= idx < len(pal) and idx < 64:
+        v = pal[idx].upper()
+        return v if len(v) == 8 else "FF" + v
+    return ""
+
+
 def _flag(el):
     """CT_BooleanProperty: <b/> and <b val="1"/> are true"""
     return el is not None and el.get("val", "1").strip() in ("1", "true", "on")
 
 
-def decode_dxf(dxf):
+def decode_dxf(dxf, palette=None):
     """CT_Dxf (18.8.14) -> what it formats with: {"font": "" (no <font>) | "b" (bold) | "n" (a font, not bold),
-    "italic": bool, "font_rgb", "fg", "bg" (patternFill fgColor/bgColor @rgb, "" if absent or not rgb), "pattern",
+    "italic": bool, "font_rgb", "fg", "bg" (patternFill fgColor/bgColor as AARRGGBB through color_argb, "" if absent / theme / system), "pattern",
     "border": style of the left edge ("" if none), "numfmt": formatCode ("" if no <numFmt>),
     "protection": bool (a <protection> child), "alignment": bool, "empty": bool (no child at all)}"""
     font, fill, border = _child(dxf, "font"), _child(dxf, "fill"), _child(dxf, "border")
@@ -778,8 +801,7 @@ def decode_dxf(dxf):
     lstyle = left.get("style", "") if left is not None else ""
     return {"font": "" if font is None else ("b" if _flag(_child(font, "b")) else "n"),
             "italic": _flag(_child(font, "i")) if font is not None else False,
-            "font_rgb": fcol.get("rgb", "") if fcol is not None else "",
-            "fg": fgc.get("rgb", "") if fgc is not None else "", "bg": bgc.get("rgb", "") if bgc is not None else "",
+            "font_rgb": color_argb(fcol, palette), "fg": color_argb(fgc, palette), "bg": color_argb(bgc, palette),
             "pattern": pf.get("patternType", "") if pf is not None else "",
             "border": "" if lstyle == "none" else lstyle,
             "numfmt": nf.get("formatCode", "") if nf is not None else "", "protection": prot is not None,
@@ -808,7 +830,12 @@ def decode_styles(pkg, part):
     st["dxfs"] = count("dxfs", "dxf")
     dx = _child(root, "dxfs")
     if dx is not None:
-        st["dxf_list"] = [decode_dxf(x) for x in _children(dx, "dxf")]
+        palette = None
+        cols = _child(root, "colors")
+        ic = _child(cols, "indexedColors") if cols is not None else None
+        if ic is not None:
+            palette = [x.get("rgb", "") for x in _children(ic, "rgbColor")]
+        st["dxf_list"] = [decode_dxf(x, palette) for x in _children(dx, "dxf")]
     cx = _child(root, "cellXfs")
     if cx is not None:
         for xf in _children(cx, "xf"):
